@@ -228,11 +228,18 @@ def site_categories(s):
     return sitecat.categories("weibull", s["K"], s["shape"], s.get("pinv") if k == "weibull+inv" else None, s.get("mu"))
 
 
+def case_topo(c):
+    t = c["topo"]
+    if "nested" in t:
+        return Topo(t["nested"])
+    return Topo(nested_from_ins(t["ins"], t.get("perm"), t.get("swaps")))
+
+
 def tree_geometry(c):
     """-> (Topo, names, dates-as-written, bl: node -> expected substitutions length, heights or None)"""
-    topo = Topo(nested_from_ins(c["topo"]["ins"], c["topo"].get("perm"), c["topo"].get("swaps")))
+    topo = case_topo(c)
     n = topo.n
-    names = names_for(n)
+    names = c.get("names") or names_for(n)
     t = c["tree"]
     kind = t["kind"]
     if kind == "unrooted_newick":
@@ -326,11 +333,9 @@ def build_like(c):
 
 
 def tip_vectors(c, info):
-    n = len(c["topo"]["perm"])
+    n = case_topo(c).n
     fam = c["family"]
     mode = c["tip"]
-    if fam == "general" and mode == "noamb":
-        mode = "amb"  # GeneralDataType documents no use_ambiguities switch; ambiguity codes are not drawn for this mode
     return {i: np.array([OL.tip_vector(fam, col[i], mode, info) for col in c["cols"]]) for i in range(n)}
 
 
